@@ -19,6 +19,7 @@ structure NodeSlot where
   apiQ : List ApiMsg := []
   immCallers : List Nat := []
   immResolved : List Nat := []
+  recent : List (Nat × Option MItem) := []
 
 structure DState where
   closest : ClosestNodes := { target := ⟨[]⟩ }
@@ -44,6 +45,8 @@ structure DState where
   apiQ : List ApiMsg := []
   immCallers : List Nat := []
   immResolved : List Nat := []
+  /-- callers of `get_mutable_most_recent`, with the item their fold holds (`Api.mostRecentStep`) -/
+  recent : List (Nat × Option MItem) := []
   outSeen : Nat := 0
   -- mnet stream: the other nodes of the case (the current one is loaded into the fields above)
   multi : Bool := false
@@ -341,9 +344,22 @@ def facade (st : DState) (evs : List Event) : DState × List String :=
     | .value c (.immutable v) =>
       if st.immResolved.contains c then acc
       else ({ st with immResolved := c :: st.immResolved }, acc.2 ++ [s!"c{c}:some:{hz v}"])
-    | .value c v => (st, acc.2 ++ [s!"c{c}:item:{showValueItem v}"])
+    | .value c v =>
+      (match st.recent.find? (·.1 == c), v with
+       | some (_, held), .mutable i =>
+         -- `get_mutable_most_recent`: the facade folds the stream (Model/Api.lean) and says nothing yet
+         let keep : Bool := match held with
+           | some mr => !(Api.newer ⟨i.seq, i.value⟩ ⟨mr.seq, mr.value⟩)
+           | none => false
+         if keep then acc
+         else ({ st with recent := (c, some i) :: st.recent.filter (·.1 != c) }, acc.2)
+       | _, _ => (st, acc.2 ++ [s!"c{c}:item:{showValueItem v}"]))
     | .closed c =>
-      if st.immCallers.contains c then
+      if (st.recent.find? (·.1 == c)).isSome then
+        (match st.recent.find? (·.1 == c) with
+         | some (_, some i) => (st, acc.2 ++ [s!"c{c}:recent:{showValueItem (.mutable i)}"])
+         | _ => (st, acc.2 ++ [s!"c{c}:recent:none"]))
+      else if st.immCallers.contains c then
         (if st.immResolved.contains c then acc else ({ st with immResolved := c :: st.immResolved }, acc.2 ++ [s!"c{c}:none"]))
       else (st, acc.2 ++ [s!"c{c}:end"])
     | .nodes c l => (st, acc.2 ++ [s!"c{c}:nodes:{showNodes l}"])
@@ -421,6 +437,10 @@ def parseApi (c : Nat) (call : String) (toks : List String) : Option (ApiMsg × 
     (match hexOf "k", optHex "salt", optI "seq" with
      | some k, some salt, some seq => some (.get (.getValue seq salt) ⟨targetFromKey k salt⟩ (.mutable c), false)
      | _, _, _ => none)
+  | "get_mut_recent" =>
+    (match hexOf "k", optHex "salt" with
+     | some k, some salt => some (.get (.getValue none salt) ⟨targetFromKey k salt⟩ (.mutable c), false)
+     | _, _ => none)
   | "get_peers" => (idOf "ih").map fun t => (.get .getPeers t (.peers c), false)
   | "get_speers" => (idOf "ih").map fun t => (.get .getSignedPeers t (.signedPeers c), false)
   | "find_node" => (idOf "t").map fun t => (.get .findNode t (.closestNodes c), false)
@@ -495,6 +515,7 @@ def step3 (st : DState) (toks : List String) : DState × String :=
           -- announce_peer, announce_signed_peer) are remembered as c + 1000000
           let plain := call == "put_imm" || call == "announce" || call == "sannounce"
           ({ st with apiQ := st.apiQ ++ [m],
+                     recent := (if call == "get_mut_recent" then [(c, none)] else []) ++ st.recent,
                      immCallers := (if isImm then [c] else []) ++ (if plain then [c + 1000000] else []) ++ st.immCallers }, "ok")
         | none => (st, "bad-op"))
      | _, _ => (st, "bad-op"))
@@ -558,14 +579,14 @@ def saveSlot (st : DState) (i : Nat) : DState :=
   match st.actor with
   | some a =>
     let slot : NodeSlot := { actor := a, nodeAddr := st.nodeAddr, nreqs := st.nreqs, apiQ := st.apiQ,
-                             immCallers := st.immCallers, immResolved := st.immResolved }
+                             immCallers := st.immCallers, immResolved := st.immResolved, recent := st.recent }
     { st with slots := (i, slot) :: st.slots.filter (·.1 != i), actor := none }
   | none => st
 
 def loadSlot (st : DState) (i : Nat) : Option DState :=
   (st.slots.find? (·.1 == i)).map fun p =>
     { st with actor := some p.2.actor, nodeAddr := p.2.nodeAddr, nreqs := p.2.nreqs, apiQ := p.2.apiQ,
-              immCallers := p.2.immCallers, immResolved := p.2.immResolved }
+              immCallers := p.2.immCallers, immResolved := p.2.immResolved, recent := p.2.recent }
 
 /-- mnet stream: several model nodes, ops prefixed with the node index -/
 def step4 (st : DState) (toks : List String) : DState × String :=
@@ -576,7 +597,7 @@ def step4 (st : DState) (toks : List String) : DState × String :=
        if i != st.slots.length then (st, "bad-op") else
        (match mkNodeActor rest st.now with
         | some (a, addr) =>
-          let st1 : DState := { st with actor := some a, nodeAddr := addr, nreqs := [], apiQ := [], immCallers := [], immResolved := [] }
+          let st1 : DState := { st with actor := some a, nodeAddr := addr, nreqs := [], apiQ := [], immCallers := [], immResolved := [], recent := [] }
           let (st2, out) := step3 st1 ["init"]
           (saveSlot st2 i, out)
         | none => (st, "bad-op"))
